@@ -102,3 +102,35 @@ Proof.
   - cbn [good_rev] in Hg. tauto.
   - cbn [good_rev] in Hg. destruct Hg as (_ & _ & _ & Ht). exact (IH _ Ht).
 Qed.
+
+(* ---- lossless HQ slice length fields (Gen/EncLossless.v, extracted from
+        make_transform_data_hq_lossless on every run) ------------------------------------ *)
+From VC2 Require Import Base.PyZ Gen.EncLossless.
+Ltac Zify.zify_post_hook ::= Z.to_euclidean_division_equations.
+
+Theorem lossless_lengths_fit (minimum max_length len : Z) :
+  0 <= len <= max_length ->
+  let s := hq_lossless_slice_size_scaler minimum max_length in
+  let f := hq_lossless_rescaled_length len s in
+  1 <= s /\ minimum <= s /\ 0 <= f <= 255 /\ len <= f * s /\ f * s < len + s
+  /\ hq_lossless_rescaled_length_dom len s = true.
+Proof.
+  intros Hl s f. unfold f, s, hq_lossless_slice_size_scaler, hq_lossless_rescaled_length,
+    hq_lossless_rescaled_length_dom, py_max, py_div.
+  set (q := (max_length + 254) / 255).
+  assert (Hq : 255 * q >= max_length) by (unfold q; lia).
+  set (sc := Z.max (Z.max 1 minimum) q).
+  assert (Hs1 : 1 <= sc) by (unfold sc; lia).
+  assert (Hsq : q <= sc) by (unfold sc; lia).
+  assert (Hsm : minimum <= sc) by (unfold sc; lia).
+  replace (negb (sc =? 0)) with true by lia.
+  set (g := (len + (sc - 1)) / sc).
+  assert (Hg : sc * g <= len + (sc - 1) < sc * g + sc).
+  { unfold g. pose proof (Z.mul_div_le (len + (sc - 1)) sc ltac:(lia)).
+    pose proof (Z.mul_succ_div_gt (len + (sc - 1)) sc ltac:(lia)). lia. }
+  assert (Hg0 : 0 <= g) by (unfold g; apply Z.div_pos; lia).
+  repeat split; try lia.
+  (* g <= 255: sc*g <= len + sc - 1 <= 255*q + sc - 1 <= 255*sc + sc - 1 < 256*sc *)
+  assert (sc * g < sc * 256) by nia.
+  nia.
+Qed.
